@@ -39,7 +39,9 @@ RULE = (
     "W1: (handshake state instance reached by a legal prefix) x handshake type (thorough: all 0..255; quick: all named types, 0/3/6/255 and 64 seeded others; +bad-MAC/bad-signature variants), "
     "one message then the legal continuation. W2: all sequences of length 0..L (quick 4, thorough 6) over "
     "{EE,CR,Cert,CV,Fin} (client victim) / {Cert,Cert-empty,CV,Fin} (server victim) x adversary key mode "
-    "(auth/own/steal/...) x PSK scenario x transcript policy (sent/accepted). W3: flights of length <= 3 in QUIC packets "
+    "(auth/own/steal/...) x PSK scenario x transcript policy (sent/accepted); plus content variants (EE {plain,+early_data,"
+    "+early_data+ALPN,+unknown ext}, Finished {good,bad MAC,empty,truncated,over-long}, CV {good,bad sig,stale}, Certificate "
+    "{good,empty}): full cross over the legal skeletons, and EE-variant x one-substitution over all flights of length <= 3 (thorough 4). W3: flights of length <= 3 in QUIC packets "
     "toward a real client QuicConnection. A case is non-trivial when the victim's dispatcher decided at least one "
     "delivered message after the preparation (accepted, refused or failed verification); two cases are distinct when the "
     "*set* of dispatcher decisions {(victim state, message type/variant, outcome class)} under the scenario, or the completion flag, differ."
@@ -55,7 +57,9 @@ ASSUMPTIONS = [
     "server 1-RTT *send* key is installed when the server has sent its own Finished (legal TLS 1.3, not covered by the property)",
     "exceptions that are not tls.Alert escaping handle_message on structurally valid messages belong to C05; here they count as "
     "'did not complete' (obs_non_alert_exception) unless state or keys changed",
-    "an empty server Certificate message is not generated (C05 territory: IndexError in _set_peer_certificate)",
+    "an empty server Certificate must not be accepted; the IndexError aioquic raises for it (instead of an alert) is C05 territory",
+    "EncryptedExtensions carrying unsolicited early_data / ALPN / unknown extensions may be rejected or processed; when processed the "
+    "next state must be the one the PSK outcome dictates (never EXPECT_FINISHED without an offered and selected PSK)",
 ]
 
 CERTS = os.path.join(os.path.dirname(os.path.dirname(os.path.abspath(__file__))), "certs")
@@ -75,6 +79,76 @@ SYM = {
 }
 
 
+EE_VARIANTS = ("early", "early_alpn", "unknown")
+FIN_VARIANTS = ("badmac", "empty", "trunc", "trunc1", "long")
+VARIANTS = {
+    "client": {"EE": EE_VARIANTS, "CERT": ("empty",), "CV": ("badsig", "stale"), "FIN": FIN_VARIANTS},
+    "server": {"CV": ("badsig",), "FIN": FIN_VARIANTS},
+}
+SKELETONS = {
+    "client": [["EE", "FIN"], ["EE", "CERT", "CV", "FIN"], ["EE", "CR", "CERT", "CV", "FIN"]],
+    "server": [["FIN"], ["CERTE", "FIN"], ["CERT", "CV", "FIN"]],
+}
+
+
+def sym_spec(sym):
+    """'FIN' or 'FIN/trunc' -> message spec"""
+    base, _, var = sym.partition("/")
+    spec = dict(SYM[base])
+    if var:
+        spec["v"] = var
+    return spec
+
+
+def variant_sequences(side, Lv):
+    """content variants: (a) the full cross product of variants over the legal skeletons; (b) for every sequence of
+    length <= Lv: each EE variant (applied to all EEs) x at most one other message replaced by a non-canonical variant.
+    The all-canonical sequences are left to the main enumeration."""
+    import itertools
+
+    alphabet = CLIENT_ALPHABET if side == "client" else SERVER_ALPHABET
+    V = VARIANTS[side]
+    k = len(alphabet)
+    seen, out = set(), []
+
+    def add(q, base):
+        tq = tuple(q)
+        if q != base and tq not in seen:
+            seen.add(tq)
+            out.append(q)
+
+    for base in SKELETONS[side]:
+        opts = [[s] + [s + "/" + v for v in V.get(s, ())] for s in base]
+        for q in itertools.product(*opts):
+            add(list(q), base)
+    bases = [[alphabet[d] for d in seq_of(i, k)] for i in range(n_sequences(k, Lv))]
+    for base in bases:
+        for e in (None,) + (tuple(V.get("EE", ())) if "EE" in base else ()):
+            b2 = [("EE/" + e) if (s == "EE" and e) else s for s in base]
+            add(b2, base)
+            for i, s in enumerate(base):
+                if s == "EE":
+                    continue
+                for v in V.get(s, ()):
+                    add(b2[:i] + [s + "/" + v] + b2[i + 1:], base)
+    return out
+
+
+def variant_scenarios(tier):
+    Lv = 3 if tier == "quick" else 4
+    out = []
+    for km in ("auth", "own"):
+        for psk in ("none", "sel", "notsel", "ghost"):
+            out.append(({"side": "client", "key_mode": km, "psk": psk, "policy": "sent", "variants": True}, Lv))
+    out.append(({"side": "client", "key_mode": "own", "psk": "none", "policy": "sent", "verify": False, "variants": True}, Lv))
+    for req in (False, True):
+        for psk in ("none", "early"):
+            if req and psk == "early":
+                continue
+            out.append(({"side": "server", "key_mode": "own", "psk": psk, "policy": "sent", "request": req, "variants": True}, Lv))
+    return out
+
+
 def floors(tier):
     return {
         "w1_cells": 500,
@@ -92,6 +166,8 @@ def finalize(tier, merged):
     planned = 0
     for sc, L in client_scenarios(tier) + server_scenarios(tier):
         planned += n_sequences(len(CLIENT_ALPHABET if sc["side"] == "client" else SERVER_ALPHABET), L)
+    for sc, Lv in variant_scenarios(tier):
+        planned += len(variant_sequences(sc["side"], Lv))
     done = int(merged.get("w2_client_sequences", 0) + merged.get("w2_server_sequences", 0))
     return {
         # every planned sequence of every scenario was executed (nothing cut off by the budget / a dead child)
@@ -181,6 +257,12 @@ def plan(tier, seed):
         sub = rng.randrange(1 << 30)
         for lo in range(0, total, chunk):
             batches.append({"gen": "w2", "scenario": sc, "L": L, "lo": lo, "hi": min(total, lo + chunk), "seed": sub})
+    # ---- W2 content variants (EE / Finished / CertificateVerify / Certificate bodies)
+    for sc, Lv in variant_scenarios(tier):
+        total = len(variant_sequences(sc["side"], Lv))
+        sub = rng.randrange(1 << 30)
+        for lo in range(0, total, chunk):
+            batches.append({"gen": "w2", "scenario": sc, "L": Lv, "lo": lo, "hi": min(total, lo + chunk), "seed": sub})
     # ---- W3
     n3 = 4 if tier == "quick" else 16
     k = len(CLIENT_ALPHABET)
@@ -252,15 +334,24 @@ class Model:
                     return {"kind": "EITHER", "next": "EE", "reason": facts.get("sh_reason", "bad-server-hello")}
                 return R
             if s == "EE":
-                return A("FIN" if self.psk_ok else "CRC") if t == T_EE else R
+                if t != T_EE:
+                    return R
+                nxt = "FIN" if self.psk_ok else "CRC"
+                if facts.get("ee_variant", "ok") != "ok":
+                    # unsolicited early_data / ALPN / unknown extension: RFC 8446 lets the client abort; if it goes on,
+                    # the next state must not depend on what the extensions say
+                    return {"kind": "EITHER", "next": nxt, "reason": "ee-" + facts["ee_variant"]}
+                return A(nxt)
             if s == "CRC":
                 if t == T_CR:
                     return A("CERT")
                 if t == T_CERT:
-                    return A("CV")
+                    return F("empty-server-certificate") if facts.get("empty") else A("CV")
                 return R
             if s == "CERT":
-                return A("CV") if t == T_CERT else R
+                if t != T_CERT:
+                    return R
+                return F("empty-server-certificate") if facts.get("empty") else A("CV")
             if s == "CV":
                 if t != T_CV:
                     return R
@@ -602,7 +693,7 @@ class Env:
         if body:
             # distinct = different *set* of dispatcher decisions (victim state, type/variant, outcome) under the scenario
             res.nontrivial.add("%s:%s" % (label, h(tuple(sorted((k, str(v)) for k, v in self.sc.items() if k in
-                                                             ("side", "key_mode", "psk", "policy", "verify", "request", "prefix"))),
+                                                             ("side", "key_mode", "psk", "policy", "verify", "request", "prefix", "variants"))),
                                                tuple(sorted(set(body))), done)))
         return done
 
@@ -702,8 +793,14 @@ class ClientEnv(Env):
             facts["sig_valid"] = adv.ident.key_matches_cert and m.clean and v == "ok"
             facts["chain_valid"] = adv.ident.cert_is_authentic
         elif t == T_FIN:
-            data = adv.finished("badmac" if v == "badmac" else "ok")
+            data = adv.finished(v if v in FIN_VARIANTS else "ok")
             facts["mac_ok"] = m.clean and v == "ok"
+        elif t == T_EE:
+            data = adv.encrypted_extensions(v if v in EE_VARIANTS else "ok")
+            facts["ee_variant"] = v if v in EE_VARIANTS else "ok"
+        elif t == T_CERT:
+            data = adv.certificate(empty=(v == "empty"))
+            facts["empty"] = v == "empty"
         elif t == T_SH and m.s == "SH":
             data = adv.typed(t)
             facts["sh_valid"] = True
@@ -797,7 +894,7 @@ class ServerEnv(Env):
             data = adv.certificate_verify("badsig" if v == "badsig" else "ok")
             facts["sig_valid"] = adv.ident.key_matches_cert and m.clean and v == "ok"
         elif t == T_FIN:
-            data = adv.finished("badmac" if v == "badmac" else "ok")
+            data = adv.finished(v if v in FIN_VARIANTS else "ok")
             facts["mac_ok"] = m.clean and v == "ok"
         else:
             data = adv.typed(t, v if isinstance(v, int) else 0)
@@ -847,7 +944,7 @@ def w2_case(sc, symbols, res, case):
     env.stopped = False  # a refused hello does not end the experiment: the rest must still be refused
     env.run([SYM[x] for x in sc.get("prefix", [])])
     env.trace_start = len(env.trace)
-    env.run([SYM[s] for s in symbols])
+    env.run([sym_spec(s) for s in symbols])
     done = env.finish("w2")
     res.evaluations += 1
     res.count("w2_%s_sequences" % side)
@@ -862,14 +959,17 @@ def gen_w2(batch, res):
     alphabet = CLIENT_ALPHABET if sc["side"] == "client" else SERVER_ALPHABET
     k = len(alphabet)
     lo, hi = batch["lo"], batch["hi"]
+    vseqs = variant_sequences(sc["side"], batch["L"]) if sc.get("variants") else None
     for idx in range(lo, hi):
-        symbols = [alphabet[d] for d in seq_of(idx, k)]
+        symbols = vseqs[idx] if vseqs is not None else [alphabet[d] for d in seq_of(idx, k)]
+        if vseqs is not None:
+            res.count("w2_variant_sequences")
         case = {"gen": "w2_one", "scenario": sc, "seq": symbols}
         env = w2_case(sc, symbols, res, case)
         if idx in (lo, lo + 7, hi - 1):
             res.sample({"gen": "w2", "scenario": {k_: sc[k_] for k_ in ("side", "key_mode", "psk", "policy", "verify", "request", "prefix") if k_ in sc}, "seq": symbols,
                         "trace": env.trace, "completed": env.completed()}, limit=3)
-    if hi >= n_sequences(k, batch["L"]):
+    if hi >= (len(vseqs) if vseqs is not None else n_sequences(k, batch["L"])):
         res.count("w2_enumerations_complete")
 
 
@@ -1017,15 +1117,14 @@ def w1_specs(variants, all_types=True, seed=0):
         if variants > 1 and t not in (T_CH, T_SH, T_EE, T_CERT, T_CR, T_CV, T_FIN, T_NST):
             for v in range(1, variants):
                 specs.append({"t": t, "v": v})
-    specs += [{"t": T_CV, "v": "badsig"}, {"t": T_CV, "v": "stale"}, {"t": T_FIN, "v": "badmac"}, {"t": T_CERT, "v": "empty"}]
+    specs += [{"t": T_CV, "v": "badsig"}, {"t": T_CV, "v": "stale"}, {"t": T_CERT, "v": "empty"}]
+    specs += [{"t": T_FIN, "v": v} for v in FIN_VARIANTS] + [{"t": T_EE, "v": v} for v in EE_VARIANTS]
     return specs
 
 
 def gen_w1(batch, res):
     for k, inst in enumerate(batch["instances"]):
         for spec in w1_specs(batch.get("variants", 1), batch.get("all_types", True), batch["seed"] + k):
-            if spec.get("v") == "empty" and inst["side"] == "client":
-                continue  # see ASSUMPTIONS (empty server Certificate)
             if spec.get("v") == "stale" and inst["side"] == "server":
                 continue
             env = w1_cell(inst, spec, batch["seed"] + k, res)
